@@ -73,6 +73,9 @@ type GenOpts struct {
 	LongValues bool // allow long strings/bytes (>=128, >=16384)
 	ValidEnums bool // only declared enum numbers
 	NoSNaN     bool // avoid float32 signalling NaNs (for Value-based worlds)
+	// OmitRequired: required fields of embedded proto2 messages are treated like any other field (may be left
+	// out): partial messages, to be handled with AllowPartial
+	OmitRequired bool
 }
 
 func defaultGen() GenOpts {
@@ -306,7 +309,7 @@ func (g *Gen) Msg(d MD, depth int) *Msg {
 		if fd.IsMap() && fd.MapValue().Kind() == protoreflect.MessageKind {
 			isMsg = true
 		}
-		if isMsg && depth >= g.O.MaxDepth && fd.Cardinality() != protoreflect.Required {
+		if isMsg && depth >= g.O.MaxDepth && (fd.Cardinality() != protoreflect.Required || g.O.OmitRequired) {
 			continue
 		}
 		if inOneof(fd) {
@@ -324,7 +327,7 @@ func (g *Gen) Msg(d MD, depth int) *Msg {
 			m.F = append(m.F, &FVal{FD: fd, S: &v})
 			continue
 		}
-		if r.Float64() >= p && fd.Cardinality() != protoreflect.Required {
+		if r.Float64() >= p && (fd.Cardinality() != protoreflect.Required || g.O.OmitRequired) {
 			continue
 		}
 		f := &FVal{FD: fd}
@@ -417,7 +420,7 @@ func (g *Gen) minimalMsg(d MD) *Msg {
 	fs := d.Fields()
 	for i := 0; i < fs.Len(); i++ {
 		fd := fs.Get(i)
-		if fd.Cardinality() != protoreflect.Required {
+		if fd.Cardinality() != protoreflect.Required || g.O.OmitRequired {
 			continue
 		}
 		var v Val
@@ -429,4 +432,34 @@ func (g *Gen) minimalMsg(d MD) *Msg {
 		m.F = append(m.F, &FVal{FD: fd, S: &v})
 	}
 	return m
+}
+
+// hasRequiredBelow reports whether a message of type d can hold (at any depth) a message with proto2 required fields.
+func hasRequiredBelow(d MD) bool {
+	seen := map[protoreflect.FullName]bool{}
+	var walk func(m MD) bool
+	walk = func(m MD) bool {
+		if seen[m.FullName()] {
+			return false
+		}
+		seen[m.FullName()] = true
+		fs := m.Fields()
+		for i := 0; i < fs.Len(); i++ {
+			fd := fs.Get(i)
+			if fd.Cardinality() == protoreflect.Required {
+				return true
+			}
+			var t MD
+			if fd.IsMap() {
+				t = fd.MapValue().Message()
+			} else {
+				t = fd.Message()
+			}
+			if t != nil && walk(t) {
+				return true
+			}
+		}
+		return false
+	}
+	return walk(d)
 }
